@@ -940,6 +940,8 @@ def model_measures(ctx, shape, case):
                     "planar": np.array(r[6:9]), "polar": r[9], "inertia": np.array(r[10:19]).reshape(3, 3)}
     except ModelRaise as e:
         return {"raise": e.kind}
+    except Exception:  # noqa: BLE001  (the implementation raised while producing the model's input: the oracle reports it)
+        return None
     return None
 
 
@@ -1050,6 +1052,33 @@ def gen_mesh(rng, ctx):
     m["vertices"] = (np.asarray(m["vertices"], dtype=float) / m["scale"]).tolist()
     return {"cls": "Polyhedron", "vertices": m["vertices"], "faces": [list(map(int, f)) for f in m["faces"]],
             "kind": m["kind"]}
+
+
+def extruded_case(poly, z1, kind):
+    """right prism over a simple polygon with MERGED (possibly non-convex) caps: faces go through polytri"""
+    poly = np.asarray(poly, dtype=float)
+    n = len(poly)
+    V = np.vstack([np.c_[poly, np.zeros(n)], np.c_[poly, np.full(n, z1)]])
+    F = [list(range(n - 1, -1, -1)), list(range(n, 2 * n))] + [[i, (i + 1) % n, n + (i + 1) % n, n + i] for i in range(n)]
+    return {"cls": "Polyhedron", "vertices": V.tolist(), "faces": F, "kind": kind}
+
+
+def gen_extruded(rng, ctx):
+    while True:
+        try:
+            m = gen.c05_extruded_polygon(rng)
+            break
+        except RuntimeError:
+            continue
+    ctx.count("kind:Polyhedron:" + m["kind"] + ":merged-caps")
+    case = {"cls": "Polyhedron", "vertices": np.asarray(m["vertices"], dtype=float).tolist(),
+            "faces": [list(map(int, f)) for f in m["faces"]], "kind": m["kind"] + ":merged-caps"}
+    if rng.random() < 0.5:   # placed: random rotation and offset (unit scale)
+        Rm = gen.random_rotation(rng)
+        u = rng.normal(size=3)
+        V = np.asarray(case["vertices"]) @ Rm.T
+        case["vertices"] = (V + u / np.linalg.norm(u) * rng.uniform(0, 10) * gen.diameter(V)).tolist()
+    return case
 
 
 def gen_polygon(rng, ctx, cls, axis_aligned=False):
@@ -1213,8 +1242,10 @@ def new_case(rng, ctx):
         c = gen_convex3(rng, ctx, "ConvexPolyhedron")
     elif r < 0.22:
         c = gen_convex3(rng, ctx, "ConvexSpheropolyhedron")
-    elif r < 0.34:
+    elif r < 0.30:
         c = gen_mesh(rng, ctx)
+    elif r < 0.34:
+        c = gen_extruded(rng, ctx)
     elif r < 0.50:
         c = gen_polygon(rng, ctx, "Polygon")
     elif r < 0.64:
@@ -1262,6 +1293,15 @@ def corpus(ctx):
     m = gen.c05_voxel_solid(np.random.default_rng(3), "L")
     out.append(({"cls": "Polyhedron", "vertices": np.asarray(m["vertices"], dtype=float).tolist(),
                  "faces": [list(map(int, f)) for f in m["faces"]], "kind": "voxel:L"}, scales + far[1:]))
+    # needle box: faces with 2*area < 1e-8 at scale 1e-3 (absolute zero-normal test of polytri)
+    out.append((box_case("Polyhedron", [1.5, 0.025, 0.025]), scales))
+    # prisms over the Z and plus outlines, merged caps: small in-plane rotations leave a collinear remainder /
+    # put a vertex on the boundary of an ear (degenerate-remainder exit, closed point-in-ear tolerance of polytri)
+    zout = [(1.5, 1), (1, 1), (1, 0), (0, 0), (0, 1), (.5, 1), (.5, 2), (1.5, 2)]
+    plus = [(1, 0), (2, 0), (2, 1), (3, 1), (3, 2), (2, 2), (2, 3), (1, 3), (1, 2), (0, 2), (0, 1), (1, 1)]
+    small = [ident("rotation", R=rot_z(a), alpha=a) for a in (0.03, 0.26, 1.0, -0.7)]
+    out.append((extruded_case(zout, 1.0, "extruded:Z:merged-caps"), small + scales[:1]))
+    out.append((extruded_case(plus, 1.0, "extruded:plus:merged-caps"), small + scales[:1]))
     # axis-aligned boxes and rectangles against rotated copies (slope 0 / inf branches, argmax axis)
     out.append((box_case("ConvexPolyhedron", [1.0, 2.0, 0.5]), scales + far[1:] + [ident("rotation", R=gen.random_rotation(np.random.default_rng(6)))]))
     out.append((box_case("ConvexSpheropolyhedron", [1.0, 2.0, 0.5], radius=0.25), scales[:1] + [ident("rotation", R=gen.random_rotation(np.random.default_rng(7)))]))
